@@ -1,4 +1,264 @@
+// seq_malformed.cpp -- C06: malformed / oversized requests fail cleanly, in any heap state.
+// The argument grid is run at several heap states inside an ordinary history (fresh, busy, after frees).
 #include "seq.hpp"
+#include <new>
+#include <csetjmp>
+#include <climits>
+
 namespace seq {
-void run_malformed(State&) {}
+
+static uint64_t g_mal_calls = 0, g_mal_overflow = 0, g_mal_toolarge = 0, g_mal_badalign = 0, g_mal_posix = 0, g_mal_new = 0, g_mal_between = 0, g_mal_states = 0, g_mal_realloc_checked = 0;
+// In a C build of mimalloc (all our variants) `std::get_new_handler` binds to mimalloc's own weak stub that returns NULL, so the
+// throwing `mi_new*` forms abort() by design on failure; they are exercised only when a handler can be installed.
+static const bool g_has_new_handler = false;
+static jmp_buf g_nh_jmp;
+static volatile int g_nh_calls = 0;
+static volatile int g_nh_limit = 3;
+static void new_handler_jmp() { g_nh_calls++; if (g_nh_calls >= g_nh_limit) longjmp(g_nh_jmp, 1); }
+
+struct Snapshot { size_t cons; size_t live; };
+
+static Snapshot snap(State& S) { Snapshot s; s.cons = conservation_count(S); s.live = S.sm.live.size(); return s; }
+
+static void expect_clean(State& S, const Snapshot& before, const char* what, vf::Blk* victim) {
+  // no effect on the heap: same number of allocated blocks, the block being re-allocated is untouched
+  Snapshot after = snap(S);
+  if (after.cons != before.cons) vf_trip("malformed-side-effect", "C06", "%s: number of allocated blocks changed from %zu to %zu across a request that must fail cleanly", what, before.cons, after.cons);
+  if (victim) { S.sm.verify(victim, what, SIZE_MAX, "C06"); g_mal_realloc_checked++;
+                size_t u = mi_usable_size(victim->p); if (u != victim->u) vf_trip("malformed-side-effect", "C06", "%s: usable size of the block being re-allocated changed from %zu to %zu", what, victim->u, u); }
+  // error callback: EOVERFLOW / ENOMEM are the documented reports; EFAULT / EINVAL / EAGAIN mean heap damage or a wrong path
+  int n = vf_err_count; if (n > VF_MAX_ERRS) n = VF_MAX_ERRS;
+  for (int i = 0; i < n; i++) { int e = vf_err_codes[i]; if (e != EOVERFLOW && e != ENOMEM) vf_trip("malformed-error-code", "C06", "%s: mimalloc reported error %d (%s): %s", what, e, strerror(e), vf_last_msgs); }
+  vf_err_reset();
 }
+
+static void must_null(State& S, void* p, const Snapshot& b, const char* what, vf::Blk* victim = nullptr) {
+  g_mal_calls++;
+  if (p != nullptr) vf_trip("malformed-accepted", "C06", "%s returned %p instead of NULL", what, p);
+  expect_clean(S, b, what, victim);
+}
+
+static char g_what[256];
+#define WHAT(...) (snprintf(g_what, sizeof(g_what), __VA_ARGS__), vf_cur_what = g_what, g_what)
+
+static void grid(State& S) {
+  g_mal_states++;
+  mi_heap_t* dh = S.heaps[S.cur_default].h;
+  int hi = 0; for (size_t i = 0; i < S.heaps.size(); i++) if (S.heaps[i].alive) hi = (int)i;
+  mi_heap_t* h = S.heaps[hi].h; (void)dh;
+  const size_t PMAX = (size_t)PTRDIFF_MAX;
+  // a victim for the realloc family
+  vf::Blk* v = nullptr;
+  if (S.sm.live.empty()) do_alloc(S, EP_malloc, 100);
+  v = S.sm.live[vf_rng_below(&S.rng, S.sm.live.size())];
+
+  // ---- count * size overflow ----
+  static const size_t szs[] = { 2, 3, 7, 8, 16, 24, 4096, 65536, (size_t)1 << 31, ((size_t)1 << 32) + 1, (size_t)1 << 33, ((size_t)1 << 62) };
+  for (size_t si = 0; si < sizeof(szs) / sizeof(szs[0]); si++) {
+    size_t sz = szs[si];
+    size_t q = SIZE_MAX / sz;
+    size_t counts[] = { q + 1, q + 2, SIZE_MAX, SIZE_MAX - 1, SIZE_MAX / 2 + 1, q + 1 + (size_t)vf_rng_below(&S.rng, 1000) };
+    for (size_t ci = 0; ci < sizeof(counts) / sizeof(counts[0]); ci++) {
+      size_t c = counts[ci];
+      if (c <= q) continue;            // must really overflow
+      for (int swap = 0; swap < 2; swap++) {
+        size_t a = (swap ? sz : c), b2 = (swap ? c : sz);
+        Snapshot b = snap(S);
+        g_mal_overflow += 14;
+        must_null(S, mi_calloc(a, b2), b, WHAT("mi_calloc(%zu,%zu)", a, b2));
+        must_null(S, mi_mallocn(a, b2), b, WHAT("mi_mallocn(%zu,%zu)", a, b2));
+        must_null(S, mi_heap_calloc(h, a, b2), b, WHAT("mi_heap_calloc(%zu,%zu)", a, b2));
+        must_null(S, mi_heap_mallocn(h, a, b2), b, WHAT("mi_heap_mallocn(%zu,%zu)", a, b2));
+        must_null(S, mi_calloc_aligned(a, b2, 64), b, WHAT("mi_calloc_aligned(%zu,%zu,64)", a, b2));
+        must_null(S, mi_calloc_aligned_at(a, b2, 64, 8), b, WHAT("mi_calloc_aligned_at(%zu,%zu,64,8)", a, b2));
+        must_null(S, mi_heap_calloc_aligned(h, a, b2, 32), b, WHAT("mi_heap_calloc_aligned(%zu,%zu,32)", a, b2));
+        must_null(S, mi_reallocn(v->p, a, b2), b, WHAT("mi_reallocn(p,%zu,%zu)", a, b2), v);
+        must_null(S, mi_recalloc(v->p, a, b2), b, WHAT("mi_recalloc(p,%zu,%zu)", a, b2), v);
+        must_null(S, mi_heap_reallocn(h, v->p, a, b2), b, WHAT("mi_heap_reallocn(p,%zu,%zu)", a, b2), v);
+        must_null(S, mi_heap_recalloc(h, v->p, a, b2), b, WHAT("mi_heap_recalloc(p,%zu,%zu)", a, b2), v);
+        must_null(S, mi_recalloc_aligned(v->p, a, b2, 64), b, WHAT("mi_recalloc_aligned(p,%zu,%zu,64)", a, b2), v);
+        must_null(S, mi_recalloc_aligned_at(v->p, a, b2, 64, 16), b, WHAT("mi_recalloc_aligned_at(p,%zu,%zu,64,16)", a, b2), v);
+        must_null(S, mi_aligned_recalloc(v->p, a, b2, 64), b, WHAT("mi_aligned_recalloc(p,%zu,%zu,64)", a, b2), v);
+        // reallocarray / reallocarr set errno
+        errno = 0;
+        void* r = mi_reallocarray(v->p, a, b2);
+        int e1 = errno;
+        must_null(S, r, b, WHAT("mi_reallocarray(p,%zu,%zu)", a, b2), v);
+        if (e1 != ENOMEM) vf_trip("malformed-errno", "C06", "mi_reallocarray(p,%zu,%zu) failed but errno is %d, expected ENOMEM", a, b2, e1);
+        errno = 0;
+        void* pp = v->p; int rc = mi_reallocarr(&pp, a, b2);
+        g_mal_calls++;
+        if (rc == 0 || pp != (void*)v->p || errno == 0) vf_trip("malformed-errno", "C06", "mi_reallocarr(&p,%zu,%zu) returned %d, errno %d, pointer %s", a, b2, rc, errno, pp == (void*)v->p ? "unchanged" : "CHANGED");
+        expect_clean(S, b, "mi_reallocarr", v);
+        // operator new[] style: the new handler is invoked exactly once and NULL comes back (handler returns)
+        if (g_has_new_handler && !S.cfg.allow_null) {
+          g_nh_calls = 0; g_nh_limit = 1000;
+          std::new_handler old = std::set_new_handler(&new_handler_jmp);
+          void* volatile pn = nullptr; volatile int jumped = 0;
+          if (setjmp(g_nh_jmp) == 0) { pn = mi_new_n(a, b2); } else jumped = 1;
+          std::set_new_handler(old);
+          g_mal_new++;
+          if (jumped || g_nh_calls != 1) vf_trip("malformed-new-handler", "C06", "mi_new_n(%zu,%zu): new handler called %d times (expected exactly once)", a, b2, (int)g_nh_calls);
+          must_null(S, pn, b, WHAT("mi_new_n(%zu,%zu)", a, b2));
+          g_nh_calls = 0;
+          old = std::set_new_handler(&new_handler_jmp);
+          pn = nullptr;
+          if (setjmp(g_nh_jmp) == 0) { pn = mi_heap_alloc_new_n(h, a, b2); }
+          std::set_new_handler(old);
+          must_null(S, pn, b, WHAT("mi_heap_alloc_new_n(%zu,%zu)", a, b2));
+          // mi_new_reallocn: keeps calling the handler while realloc fails; the handler gives up after 3 calls
+          g_nh_calls = 0; g_nh_limit = 3; pn = (void*)1; jumped = 0;
+          old = std::set_new_handler(&new_handler_jmp);
+          if (setjmp(g_nh_jmp) == 0) { pn = mi_new_reallocn(v->p, a, b2); } else { jumped = 1; pn = nullptr; }
+          std::set_new_handler(old);
+          if (!jumped && pn != nullptr) vf_trip("malformed-accepted", "C06", "mi_new_reallocn(p,%zu,%zu) returned %p", a, b2, (void*)pn);
+          g_mal_calls++;
+          expect_clean(S, b, "mi_new_reallocn", v);
+        }
+      }
+    }
+  }
+
+  // ---- size beyond the maximum allocation size ----
+  static const size_t ks[] = { 0, 1, 2, 7, 8, 15, 16, 17, 31, 32, 63, 64, 255, 256, 4095, 4096, 4097, 8191, 65535, 65536 };
+  for (size_t ki = 0; ki < sizeof(ks) / sizeof(ks[0]); ki++) {
+    size_t k = ks[ki];
+    size_t too_large[] = { SIZE_MAX - k, PMAX + 1 + k, (SIZE_MAX / 2) + 1 + k * 4096, SIZE_MAX - k * 4096 };
+    for (size_t ti = 0; ti < 4; ti++) {
+      size_t n = too_large[ti];
+      if (n <= PMAX) continue;
+      Snapshot b = snap(S);
+      g_mal_toolarge += 16;
+      must_null(S, mi_malloc(n), b, WHAT("mi_malloc(%zu)", n));
+      must_null(S, mi_zalloc(n), b, WHAT("mi_zalloc(%zu)", n));
+      must_null(S, mi_heap_malloc(h, n), b, WHAT("mi_heap_malloc(%zu)", n));
+      must_null(S, mi_heap_zalloc(h, n), b, WHAT("mi_heap_zalloc(%zu)", n));
+      must_null(S, mi_calloc(1, n), b, WHAT("mi_calloc(1,%zu)", n));
+      must_null(S, mi_mallocn(1, n), b, WHAT("mi_mallocn(1,%zu)", n));
+      must_null(S, mi_malloc_aligned(n, 16), b, WHAT("mi_malloc_aligned(%zu,16)", n));
+      must_null(S, mi_malloc_aligned(n, 4096), b, WHAT("mi_malloc_aligned(%zu,4096)", n));
+      must_null(S, mi_zalloc_aligned(n, 64), b, WHAT("mi_zalloc_aligned(%zu,64)", n));
+      must_null(S, mi_malloc_aligned_at(n, 64, 8), b, WHAT("mi_malloc_aligned_at(%zu,64,8)", n));
+      must_null(S, mi_malloc_aligned(n, (size_t)1 << 26), b, WHAT("mi_malloc_aligned(%zu,64MiB)", n));
+      must_null(S, mi_memalign(32, n), b, WHAT("mi_memalign(32,%zu)", n));
+      must_null(S, mi_aligned_alloc(32, n), b, WHAT("mi_aligned_alloc(32,%zu)", n));
+      must_null(S, mi_valloc(n), b, WHAT("mi_valloc(%zu)", n));
+      must_null(S, mi_pvalloc(n), b, WHAT("mi_pvalloc(%zu)", n));
+      must_null(S, mi_new_nothrow(n), b, WHAT("mi_new_nothrow(%zu)", n));
+      must_null(S, mi_realloc(v->p, n), b, WHAT("mi_realloc(p,%zu)", n), v);
+      must_null(S, mi_rezalloc(v->p, n), b, WHAT("mi_rezalloc(p,%zu)", n), v);
+      must_null(S, mi_heap_realloc(h, v->p, n), b, WHAT("mi_heap_realloc(p,%zu)", n), v);
+      must_null(S, mi_realloc_aligned(v->p, n, 64), b, WHAT("mi_realloc_aligned(p,%zu,64)", n), v);
+      must_null(S, mi_realloc_aligned_at(v->p, n, 64, 8), b, WHAT("mi_realloc_aligned_at(p,%zu,64,8)", n), v);
+      must_null(S, mi_realloc(nullptr, n), b, WHAT("mi_realloc(NULL,%zu)", n));
+      { void* e = mi_expand(v->p, n); g_mal_calls++; if (e != nullptr) vf_trip("malformed-accepted", "C06", "mi_expand(p,%zu) returned %p", n, e); expect_clean(S, b, "mi_expand", v); }
+      // posix_memalign: ENOMEM, out-parameter untouched
+      void* out = (void*)(uintptr_t)0x5a5a5a; int rc = mi_posix_memalign(&out, 64, n);
+      g_mal_calls++; g_mal_posix++;
+      if (rc != ENOMEM || out != (void*)(uintptr_t)0x5a5a5a) vf_trip("malformed-posix-memalign", "C06", "mi_posix_memalign(&p,64,%zu) returned %d and %s *p (expected ENOMEM, untouched)", n, rc, out == (void*)(uintptr_t)0x5a5a5a ? "left" : "MODIFIED");
+      expect_clean(S, b, "mi_posix_memalign", nullptr);
+      // reallocf frees the block on failure: use a scratch block
+      { void* s = mi_malloc(48); size_t c0 = conservation_count(S); void* r = mi_reallocf(s, n); g_mal_calls++;
+        if (r != nullptr) vf_trip("malformed-accepted", "C06", "mi_reallocf(p,%zu) returned %p", n, r);
+        size_t c1 = conservation_count(S); if (c1 + 1 != c0) vf_trip("reallocf-keeps-block", "C05,C06", "mi_reallocf(p,%zu) failed but the block was not released (allocated blocks %zu -> %zu)", n, c0, c1);
+        vf_err_reset(); }
+      // mi_new with a handler that gives up after 3 calls
+      if (g_has_new_handler && !S.cfg.allow_null) {
+        g_nh_calls = 0; g_nh_limit = 3; volatile int jumped = 0; void* volatile pn = nullptr;
+        std::new_handler old = std::set_new_handler(&new_handler_jmp);
+        if (setjmp(g_nh_jmp) == 0) { pn = mi_new(n); } else jumped = 1;
+        std::set_new_handler(old);
+        g_mal_new++; g_mal_calls++;
+        if (!jumped || pn != nullptr || g_nh_calls != 3) vf_trip("malformed-new-handler", "C06", "mi_new(%zu): handler calls %d, returned %p", n, (int)g_nh_calls, (void*)pn);
+        expect_clean(S, b, "mi_new", nullptr);
+      }
+    }
+  }
+
+  // ---- alignment zero or not a power of two ----
+  static const size_t bad_aligns[] = { 0, 3, 5, 6, 7, 9, 12, 24, 48, 100, 1000, 4097, 65537, ((size_t)1 << 20) + 1, ((size_t)1 << 20) * 3, SIZE_MAX / 2 + 2, SIZE_MAX, SIZE_MAX - 1, ((size_t)1 << 63) + 1 };
+  static const size_t ns[] = { 0, 1, 8, 100, 1024, 5000, 70000, 3000000 };
+  for (size_t ai = 0; ai < sizeof(bad_aligns) / sizeof(bad_aligns[0]); ai++) for (size_t ni = 0; ni < sizeof(ns) / sizeof(ns[0]); ni++) {
+    size_t a = bad_aligns[ai], n = ns[ni];
+    Snapshot b = snap(S);
+    g_mal_badalign += 12;
+    must_null(S, mi_malloc_aligned(n, a), b, WHAT("mi_malloc_aligned(%zu,%zu)", n, a));
+    must_null(S, mi_zalloc_aligned(n, a), b, WHAT("mi_zalloc_aligned(%zu,%zu)", n, a));
+    must_null(S, mi_calloc_aligned(1, n, a), b, WHAT("mi_calloc_aligned(1,%zu,%zu)", n, a));
+    must_null(S, mi_malloc_aligned_at(n, a, 8), b, WHAT("mi_malloc_aligned_at(%zu,%zu,8)", n, a));
+    must_null(S, mi_zalloc_aligned_at(n, a, 1), b, WHAT("mi_zalloc_aligned_at(%zu,%zu,1)", n, a));
+    must_null(S, mi_heap_malloc_aligned(h, n, a), b, WHAT("mi_heap_malloc_aligned(%zu,%zu)", n, a));
+    must_null(S, mi_heap_zalloc_aligned_at(h, n, a, 16), b, WHAT("mi_heap_zalloc_aligned_at(%zu,%zu,16)", n, a));
+    must_null(S, mi_memalign(a, n), b, WHAT("mi_memalign(%zu,%zu)", a, n));
+    must_null(S, mi_aligned_alloc(a, n), b, WHAT("mi_aligned_alloc(%zu,%zu)", a, n));
+    must_null(S, mi_new_aligned_nothrow(n, a), b, WHAT("mi_new_aligned_nothrow(%zu,%zu)", n, a));
+    if (a > sizeof(void*)) {   // with alignment <= sizeof(void*) the realloc family documents plain realloc behaviour
+      must_null(S, mi_realloc_aligned(nullptr, n, a), b, WHAT("mi_realloc_aligned(NULL,%zu,%zu)", n, a));
+      must_null(S, mi_rezalloc_aligned_at(nullptr, n, a, 8), b, WHAT("mi_rezalloc_aligned_at(NULL,%zu,%zu,8)", n, a));
+    }
+    void* out = (void*)(uintptr_t)0x5a5a5a; int rc = mi_posix_memalign(&out, a, n);
+    g_mal_calls++; g_mal_posix++;
+    if (rc != EINVAL || out != (void*)(uintptr_t)0x5a5a5a) vf_trip("malformed-posix-memalign", "C06", "mi_posix_memalign(&p,%zu,%zu) returned %d and %s *p (expected EINVAL, untouched)", a, n, rc, out == (void*)(uintptr_t)0x5a5a5a ? "left" : "MODIFIED");
+    expect_clean(S, b, "mi_posix_memalign", nullptr);
+  }
+  // posix_memalign: power of two but not a multiple of sizeof(void*)
+  for (size_t a = 1; a < sizeof(void*); a *= 2) {
+    Snapshot b = snap(S);
+    void* out = (void*)(uintptr_t)0x5a5a5a; int rc = mi_posix_memalign(&out, a, 100);
+    g_mal_calls++; g_mal_posix++;
+    if (rc != EINVAL || out != (void*)(uintptr_t)0x5a5a5a) vf_trip("malformed-posix-memalign", "C06", "mi_posix_memalign(&p,%zu,100) returned %d (expected EINVAL, *p untouched)", a, rc);
+    expect_clean(S, b, "mi_posix_memalign", nullptr);
+  }
+  { int rc = mi_posix_memalign(nullptr, 64, 100); g_mal_calls++; if (rc != EINVAL) vf_trip("malformed-posix-memalign", "C06", "mi_posix_memalign(NULL,64,100) returned %d", rc); vf_err_reset(); }
+
+  // ---- between "moderate" and the maximum: either outcome is fine, but it must be clean ----
+  static const size_t mids[] = { (size_t)1 << 40, (size_t)1 << 46, ((size_t)1 << 47) - 4096, PMAX, PMAX - 1, PMAX - 4096, PMAX - 65536, PMAX / 2 };
+  for (size_t mi = 0; mi < sizeof(mids) / sizeof(mids[0]); mi++) {
+    size_t n = mids[mi];
+    Snapshot b = snap(S);
+    void* p = (mi & 1) ? mi_malloc(n) : mi_malloc_aligned(n, 4096);
+    g_mal_between++; g_mal_calls++;
+    if (p != nullptr) { if (mi_usable_size(p) < n) vf_trip("usable-size", "C03,C06", "allocation of %zu bytes succeeded with usable size %zu", n, mi_usable_size(p)); mi_free(p); }
+    expect_clean(S, b, "huge request", nullptr);
+  }
+  vf_cur_what = "grid done";
+}
+
+static void mal_print(FILE* f) {
+  fprintf(f, ",\"malformed\":{\"calls\":%llu,\"overflow\":%llu,\"too_large\":%llu,\"bad_alignment\":%llu,\"posix_memalign\":%llu,\"new_handler\":%llu,\"between\":%llu,\"heap_states\":%llu,\"realloc_victim_checks\":%llu}",
+          (unsigned long long)g_mal_calls, (unsigned long long)g_mal_overflow, (unsigned long long)g_mal_toolarge, (unsigned long long)g_mal_badalign, (unsigned long long)g_mal_posix,
+          (unsigned long long)g_mal_new, (unsigned long long)g_mal_between, (unsigned long long)g_mal_states, (unsigned long long)g_mal_realloc_checked);
+}
+
+void run_malformed(State& S) {
+  add_result_printer(&mal_print);
+  // state 1: fresh heap
+  grid(S);
+  // state 2..: inside an ordinary history
+  uint64_t total = S.cfg.ops, chunk = (total / 3 ? total / 3 : 1);
+  S.cfg.profile = "general";   // op mix of the general profile (generic oracles still refute C06 here: see generic_refutes at start)
+  S.sm.refutes_generic = "C06";
+  S.cfg.size_cap = 2u << 20;
+  for (int round = 0; round < 3; round++) {
+    S.cfg.ops = chunk;
+    // run a chunk of history without the final free-all: emulate by using run_history pieces
+    for (uint64_t i = 0; i < chunk; i++) {
+      S.op_index++; vf_cur_op = S.op_index;
+      unsigned r = (unsigned)vf_rng_below(&S.rng, 100);
+      if (r < 55 && S.sm.live.size() < 3000) do_alloc(S);
+      else if (!S.sm.live.empty()) { vf::Blk* b = S.sm.live[vf_rng_below(&S.rng, S.sm.live.size())]; do_free(S, b); }
+    }
+    if (round == 2) { // "after frees": drain most
+      while (S.sm.live.size() > 8) do_free(S, S.sm.live[vf_rng_below(&S.rng, S.sm.live.size())]);
+    }
+    grid(S);
+    S.sm.verify_all("after the malformed-request grid");
+  }
+  S.cfg.profile = "malformed";
+  walk_compare(S, "C06,C12");
+  free_all(S);
+  mi_collect(true);
+  check_conservation(S, "end", "C06");
+}
+
+} // namespace seq
